@@ -158,6 +158,23 @@ def generate():
             L.append("(* %s *)" % ", ".join(visits))
             L.append("Definition code_visits : list str := [%s]." % "; ".join(gstr(v) for v in visits))
             L.append("")
+    # the version gate of `read`: `if version > Version::Vnn { bail!(…) }` with Vnn = Version::new(major, minor)
+    m = re.search(r"if\s+version\s*>\s*Version::(V[0-9_]+)\s*\{\s*bail!", cr)
+    if not m:
+        raise Bad("class_reader.rs: version gate `if version > Version::Vnn { bail!` not found")
+    vsrc = strip_comments(open(os.path.join(repo, "duke/src/tree/version.rs")).read())
+    mv = re.search(r"pub\s+const\s+%s\s*:\s*Version\s*=\s*Version::new\((\d+)\s*,\s*(\d+)\)\s*;" % m.group(1), vsrc)
+    if not mv:
+        raise Bad("version.rs: constant %s not found" % m.group(1))
+    if not re.search(r"self\.major\.cmp\(&other\.major\)\s*\.then_with\(\|\|\s*self\.minor\.cmp\(&other\.minor\)\)", vsrc):
+        raise Bad("version.rs: Ord for Version is not the lexicographic (major, minor) order")
+    L.append("(* read: `if version > Version::%s { bail! }`, Version ordered by (major, minor) *)" % m.group(1))
+    L.append("Definition max_version_major : N := %s." % mv.group(1))
+    L.append("Definition max_version_minor : N := %s." % mv.group(2))
+    if "if magic != class_constants::MAGIC" not in cr or not re.search(r"const\s+MAGIC\s*:\s*u32\s*=\s*0xCAFE_BABE\s*;", cc):
+        raise Bad("magic check / MAGIC constant not found")
+    L.append("Definition magic : N := 3405691582.")
+    L.append("")
     for fname, struct in FLAG_STRUCTS:
         src = strip_comments(open(os.path.join(repo, "duke/src/tree", fname)).read())
         rd, wr, fields = flag_tables(src, struct, fname)
